@@ -60,6 +60,15 @@ func fieldRole(st *types.Struct, idx int) string {
 
 // available: v == len(recv.buf) - recv.off
 func isAvailable(v ssa.Value, recv ssa.Value) bool {
+	// `b.remaining()` — a one-line accessor on the same receiver that returns len(buf)-off
+	if call, ok := v.(*ssa.Call); ok {
+		if g := call.Call.StaticCallee(); g != nil && len(g.Blocks) == 1 && g.Signature.Recv() != nil && len(call.Call.Args) == 1 && call.Call.Args[0] == recv {
+			if r, ok := g.Blocks[0].Instrs[len(g.Blocks[0].Instrs)-1].(*ssa.Return); ok && len(r.Results) == 1 {
+				return isAvailable(r.Results[0], g.Params[0])
+			}
+		}
+		return false
+	}
 	bo, ok := v.(*ssa.BinOp)
 	if !ok || bo.Op != token.SUB {
 		return false
